@@ -11,15 +11,6 @@ package parser
 // explicit panic inside the parser must either be unreachable or happen only
 // after panicking has been set; otherwise malformed input crashes the caller.
 
-//@ func errors.Errors
-//@   assumed A-int: flattens an error list; reads only
-//@ func errors.Append
-//@   assumed A-int: list constructor
-//@ func errors.Newf
-//@   assumed A-int: error constructor
-//@   ensures result != nil
-//@ func (errors.Error).Position
-//@   assumed A-int: accessor
 //@ func (token.Pos).Line
 //@   assumed A-int: accessor
 
